@@ -16,8 +16,10 @@ Vocabulary of the statement, as used below
     it is that clock reading;
   * a message that cannot be imported (malformed data, unusable `t`, value refused by the datatype),
     a message for something that is not a parameter of the description, and garbage change nothing;
-  * "registered": registered and since then neither unregistered nor self-removed by raising
-    `UnregisterCallback`; a callback registered twice counts twice.
+  * "registered": registered and since then neither unregistered (from outside or by a callback calling
+    `unregister_callback`) nor self-removed by raising `UnregisterCallback`; a callback registered twice counts
+    twice.  A registration that a callback removes *while a message is being dispatched* may or may not see that
+    message (never more than once); every other registration sees it exactly once.
 -/
 namespace Frappy.Spec.C12
 open Frappy.Client.Cache
@@ -148,10 +150,12 @@ def CacheMirrors (t : Tables) (mp : Maps) (imp : Str → Str → J → Option V)
 def levels (m p : Str) : List Key := [.node, .module m, .param m p]
 
 /-- one block: every call carries the message's parameter and item, and every live registration of the three
-levels is called exactly once (a callback registered `n` times, `n` times) -/
-def BlockOnce (live : List Reg) (m p : Str) (item : Item V) (block : List (Call V)) : Prop :=
+levels is called exactly once (a callback registered `n` times, `n` times) — except that a registration which one of
+the callbacks of this very block unregisters may miss the message (it is never called more often) -/
+def BlockOnce (behave : Call V → Outcome) (live : List Reg) (m p : Str) (item : Item V) (block : List (Call V)) : Prop :=
   (∀ c ∈ block, c.m = m ∧ c.p = p ∧ c.item = item ∧ c.reg.key ∈ levels m p) ∧
-  ∀ r : Reg, r.key ∈ levels m p → (block.map (·.reg)).count r = live.count r
+  ∀ r : Reg, r.key ∈ levels m p → (block.map (·.reg)).count r ≤ live.count r ∧
+    ((∀ c ∈ block, r ∉ (behave c).removes) → (block.map (·.reg)).count r = live.count r)
 
 /-- the cached entries a registration under `key` is told about at once -/
 def concerned (key : Key) (e : (Str × Str) × Item V) : Bool :=
@@ -170,22 +174,24 @@ def ImmediateOnce (cache : Cache V) (r : Reg) (block : List (Call V)) : Prop :=
 /-- registrations alive after an event, given the calls it caused -/
 def liveAfter (behave : Call V → Outcome) (live : List Reg) (ev : Ev J) (block : List (Call V)) : List Reg :=
   match ev with
-  | .register r => if block.all (fun c => behave c != .unregister) then live ++ [r] else live
+  | .register r =>
+    let live' := block.foldl (fun l c => applyRemoves l (behave c).removes) live
+    if block.all (fun c => (behave c).result != .unregister) then live' ++ [r] else live'
   | .unregister r => live.erase r
-  | .line _ _ => block.foldl (fun l c => if behave c = .unregister then l.erase c.reg else l) live
+  | .line _ _ => block.foldl (afterCall behave) live
 
 /-- same contents (caches are maps) -/
 def SameCache (c c' : Cache V) : Prop := ∀ k, dictGet c k = dictGet c' k
 
 /-- what one event may do: `c`/`c'` cache before/after, `block` the callback calls it causes -/
-def StepOk (t : Tables) (mp : Maps) (imp : Str → Str → J → Option V) (c : Cache V) (live : List Reg) (ev : Ev J)
-    (block : List (Call V)) (c' : Cache V) : Prop :=
+def StepOk (t : Tables) (mp : Maps) (imp : Str → Str → J → Option V) (behave : Call V → Outcome) (c : Cache V)
+    (live : List Reg) (ev : Ev J) (block : List (Call V)) (c' : Cache V) : Prop :=
   match ev with
   | .line now l =>
     match effectiveFor mp imp l, l with
     | some (m, p), .msg msg =>
       ∃ item, dictGet c' (m, p) = some item ∧ Effective t mp imp now msg m p item ∧
-        (∀ k, k ≠ (m, p) → dictGet c' k = dictGet c k) ∧ BlockOnce live m p item block
+        (∀ k, k ≠ (m, p) → dictGet c' k = dictGet c k) ∧ BlockOnce behave live m p item block
     | _, _ => SameCache c c' ∧ block = []
   | .register r => SameCache c c' ∧ ImmediateOnce c r block
   | .unregister _ => SameCache c c' ∧ block = []
@@ -195,7 +201,7 @@ callback calls it caused and the cache after it -/
 inductive Mirrors (t : Tables) (mp : Maps) (imp : Str → Str → J → Option V) (behave : Call V → Outcome) :
     Cache V → List Reg → List (Ev J × List (Call V) × Cache V) → Prop
   | nil (c live) : Mirrors t mp imp behave c live []
-  | cons (c live ev block c' rest) : StepOk t mp imp c live ev block c' →
+  | cons (c live ev block c' rest) : StepOk t mp imp behave c live ev block c' →
       Mirrors t mp imp behave c' (liveAfter behave live ev block) rest →
       Mirrors t mp imp behave c live ((ev, block, c') :: rest)
 
@@ -212,9 +218,11 @@ def keysOf (c : Cache V) : List (Str × Str) := c.map (·.1)
 def sameCacheB (c c' : Cache V) : Bool :=
   (keysOf c ++ keysOf c').all (fun k => dictGet c k == dictGet c' k)
 
-def blockOnceB (live : List Reg) (m p : Str) (item : Item V) (block : List (Call V)) : Bool :=
+def blockOnceB (behave : Call V → Outcome) (live : List Reg) (m p : Str) (item : Item V) (block : List (Call V)) : Bool :=
   block.all (fun c => c.m == m && c.p == p && c.item == item && (levels m p).contains c.reg.key) &&
-  (live ++ block.map (·.reg)).all (fun r => !(levels m p).contains r.key || (block.map (·.reg)).count r == live.count r)
+  (live ++ block.map (·.reg)).all (fun r => !(levels m p).contains r.key ||
+    (decide ((block.map (·.reg)).count r ≤ live.count r) &&
+      (block.any (fun c => (behave c).removes.contains r) || (block.map (·.reg)).count r == live.count r)))
 
 def immediateOnceB (cache : Cache V) (r : Reg) (block : List (Call V)) : Bool :=
   block.isPerm ((cache.filter (concerned r.key)).map (callOf r))
@@ -224,8 +232,8 @@ def effectiveB (t : Tables) (mp : Maps) (imp : Str → Str → J → Option V) (
   decide (msg.action ∈ cacheActions) && decide (denoted mp msg.action msg.ident = some (m, p)) && mp.isParam m p &&
     decide (Imports t imp now msg.action m p msg.data item)
 
-def stepOkB (t : Tables) (mp : Maps) (imp : Str → Str → J → Option V) (c : Cache V) (live : List Reg) (ev : Ev J)
-    (block : List (Call V)) (c' : Cache V) : Bool :=
+def stepOkB (t : Tables) (mp : Maps) (imp : Str → Str → J → Option V) (behave : Call V → Outcome) (c : Cache V)
+    (live : List Reg) (ev : Ev J) (block : List (Call V)) (c' : Cache V) : Bool :=
   match ev with
   | .line now l =>
     match effectiveFor mp imp l, l with
@@ -233,7 +241,7 @@ def stepOkB (t : Tables) (mp : Maps) (imp : Str → Str → J → Option V) (c :
       match dictGet c' (m, p) with
       | some item => effectiveB t mp imp now msg m p item &&
           (keysOf c ++ keysOf c').all (fun k => k == (m, p) || dictGet c' k == dictGet c k) &&
-          blockOnceB live m p item block
+          blockOnceB behave live m p item block
       | none => false
     | _, _ => sameCacheB c c' && block.isEmpty
   | .register r => sameCacheB c c' && immediateOnceB c r block
@@ -244,7 +252,7 @@ def judgeFrom (t : Tables) (mp : Maps) (imp : Str → Str → J → Option V) (b
     (c : Cache V) (live : List Reg) : List (Ev J × List (Call V) × Cache V) → Option Nat
   | [] => none
   | (ev, block, c') :: rest =>
-    if stepOkB t mp imp c live ev block c' then judgeFrom t mp imp behave (i + 1) c' (liveAfter behave live ev block) rest
+    if stepOkB t mp imp behave c live ev block c' then judgeFrom t mp imp behave (i + 1) c' (liveAfter behave live ev block) rest
     else some i
 
 def judge (t : Tables) (mp : Maps) (imp : Str → Str → J → Option V) (behave : Call V → Outcome)
@@ -263,5 +271,13 @@ end monitors
 returned": `eqv` is value equality (Python `==`), `drv` the driver -/
 def WriteMirrors (eqv : V → V → Prop) (drv : V → V) (v : V) (driverGot : Option V) (entry : Option (Item V)) : Prop :=
   ∃ v', driverGot = some v' ∧ eqv v' v ∧ ∃ r ts, entry = some ⟨.value r, ts⟩ ∧ eqv r (drv v')
+
+/-- monitor of the second sentence on one observed write: `got` lists the values the driver's write function was
+called with (exactly one call is expected), `returned` is what that call returned, `entry` the client's cache entry
+afterwards; `eqb` decides value equality -/
+def writeOkB (eqb : V → V → Bool) (v : V) (got : List V) (returned : V) (entry : Option (Item V)) : Bool :=
+  match got, entry with
+  | [v'], some ⟨.value r, _⟩ => eqb v' v && eqb r returned
+  | _, _ => false
 
 end Frappy.Spec.C12
